@@ -1,5 +1,5 @@
 # © Crown-owned copyright 2025, Defence Science and Technology Laboratory UK
-import secrets
+import random
 from enum import Enum
 from typing import Union
 
@@ -91,7 +91,8 @@ class ICMPPacket(BaseModel):
 
     def __init__(self, **kwargs):
         if not kwargs.get("identifier"):
-            kwargs["identifier"] = secrets.randbits(16)
+            # drawn from the seeded generator: the identifier is part of the frame, whose serialised size is what links account
+            kwargs["identifier"] = random.getrandbits(16)
         super().__init__(**kwargs)
 
     @field_validator("icmp_code")  # noqa
